@@ -40,6 +40,32 @@ def run(ctx):
         if t.shape != (nx + ny, 2) or [F(v) for v in t[:, 0]] != want0 or [F(v) for v in t[:, 1]] != want1:
             det.update({"issue": "not (x, f(y) | finv(x), y), treated units first", "returned": t.tolist()}); ctx.violation("oracle", det, site="potential_outcomes"); continue
         ops.append(f"potout|{rats(x)}|{rats(y)}|{rat(a)}|{rat(b)}"); meta.append(("potout", det, t.tolist()))
+    # observed outcomes are returned bit for bit, imputed ones are exactly f(y) / finv(x), also where finv(f(y)) != y in doubles
+    #      (decimal data, pairs that are inverse only up to rounding)
+    cbrt = lambda u: np.sign(u) * np.abs(u) ** (1.0 / 3.0)
+    smooth = [("u+0.1", lambda u: u + 0.1, lambda u: u - 0.1), ("3u", lambda u: 3 * u, lambda u: u / 3), ("u/7", lambda u: u / 7, lambda u: u * 7),
+              ("exp", np.exp, np.log), ("u^3", lambda u: u ** 3, cbrt), ("u+2^40", lambda u: u + 2.0 ** 40, lambda u: u - 2.0 ** 40),
+              ("1.1u+0.3", lambda u: 1.1 * u + 0.3, lambda u: (u - 0.3) / 1.1)]
+    for _ in range(ctx.n(100, 1000)):
+        nx, ny = ctx.rng.randint(1, 5), ctx.rng.randint(1, 5)
+        name_, f, finv = ctx.rng.choice(smooth)
+        lo_ = 0.1 if name_ == "exp" else -2.0
+        x = [round(ctx.rng.uniform(max(lo_, 0.1) if name_ == "exp" else lo_, 3.0), ctx.rng.choice([1, 2])) for _ in range(nx)]
+        y = [round(ctx.rng.uniform(lo_, 3.0), ctx.rng.choice([1, 2])) for _ in range(ny)]
+        if name_ == "exp":
+            x = [abs(v) + 0.1 for v in x]
+        xa, ya = np.array(x), np.array(y)
+        r = guarded(utils.potential_outcomes, xa, ya, f, finv)
+        det = {"call": "potential_outcomes", "x": x, "y": y, "f": name_}
+        ctx.case(("po-float", tuple(x), tuple(y), name_), True, det); ctx.count("potential_outcomes-decimal-data")
+        if r[0] != "ok":
+            det.update({"issue": "an (approximately) inverse pair was rejected or the call failed", "returned": r[1:]}); ctx.violation("oracle", det, site="potential_outcomes"); continue
+        t = np.array(r[1])
+        with np.errstate(all="ignore"):
+            w0 = np.concatenate([xa, f(ya)]); w1 = np.concatenate([finv(xa), ya])
+        if t.shape != (nx + ny, 2) or not np.array_equal(t[:, 0], w0, equal_nan=True) or not np.array_equal(t[:, 1], w1, equal_nan=True):
+            det.update({"issue": "not (x, f(y) | finv(x), y) bit for bit: an observed outcome was changed or an imputed one is not f(y) / finv(x)",
+                        "returned": t.tolist(), "expected": np.column_stack([w0, w1]).tolist()}); ctx.violation("oracle", det, site="potential_outcomes")
     # pairs that are not inverse to each other are rejected
     one_way = [(lambda u: 10 * u, lambda u: u // 10), (lambda u: u // 10, lambda u: 10 * u), (lambda u: 3 * u, lambda u: np.round(u / 3)),
                (lambda u: np.round(u / 3), lambda u: 3 * u), (lambda u: u + 0.5, lambda u: np.floor(u)), (lambda u: np.floor(u / 2), lambda u: 2 * u),
@@ -91,6 +117,14 @@ def run(ctx):
             ctx.violation("oracle", det2, site="two_sample_shift")
         # constant d and the pair (u+d, u-d) give identical results
         rc = guarded(core.two_sample_shift, x, y, stat=st, seed=seed, shift=d, **kw)
+        # ... and without keep_dist the same p-value and statistic come back (same seed, same re-allocations)
+        kw2 = dict(kw); kw2["keep_dist"] = False
+        rk = guarded(core.two_sample_shift, x, y, stat=st, seed=seed, shift=d, **kw2)
+        ctx.count("keep_dist-pairs")
+        if rc[0] == "ok" and (rk[0] != "ok" or abs(rk[1][0] - rc[1][0]) > 1e-12 or not (rk[1][1] == rc[1][1] or (rk[1][1] != rk[1][1] and rc[1][1] != rc[1][1]))):
+            det2 = dict(det); det2.update({"issue": "keep_dist=False gives another p-value / statistic than keep_dist=True under the same seed",
+                                           "keep_dist_true": [float(rc[1][0]), float(rc[1][1])], "keep_dist_false": str(rk[1:])[:200]})
+            ctx.violation("oracle", det2, site="two_sample_shift")
         rp = guarded(core.two_sample_shift, x, y, stat=st, seed=seed, shift=((lambda u: u + d), (lambda u: u - d)), **kw)
         if not same(rc, rp):
             det2 = dict(det); det2.update({"issue": "the constant shift and the pair (u+d, u-d) give different results", "constant": str(rc)[:300], "pair": str(rp)[:300]})
